@@ -27,21 +27,12 @@ Theorem C02_hex : forall (up : bool) (bs : list N), bytes_okb bs = true -> to_he
 Proof. exact to_hex_spec. Qed.
 Print Assumptions C02_hex.
 
-Lemma SHA_spec_ok t m : bytes_okb (SHA_spec t m) = true.
-Proof.
-  unfold SHA_spec, words_bytes. induction (sha_hash _ _ _ _ _) as [|w ws IH]; [reflexivity|].
-  cbn [flat_map]. now rewrite Base_BytesLemmas.bytes_okb_app, Base_BytesLemmas.be_bytes_ok, IH.
-Qed.
-
 (* the string-returning form: hex (lower, on request upper) of the binary MAC, or the binary MAC *)
 Theorem C02_string_form : forall (t : hash_t) (K m : list N) (is_hex is_upper : bool),
   N.of_nat (length K) < 2 ^ 61 -> N.of_nat (length m) < 2 ^ 61 - 128 ->
   get_hmac_str t K m is_hex is_upper =
     if is_hex then hex_of_bytes is_upper (HMAC_spec t K m) else HMAC_spec t K m.
-Proof.
-  intros t K m is_hex is_upper HK Hm. unfold get_hmac_str. rewrite get_hmac_raw_spec by assumption.
-  destruct is_hex; [|reflexivity]. apply to_hex_spec. apply SHA_spec_ok.
-Qed.
+Proof. exact get_hmac_str_spec. Qed.
 Print Assumptions C02_string_form.
 
 Example C02_nonvacuous : get_hmac_raw SHA256 (repeat 11 64) [1;2;3] = HMAC_spec SHA256 (repeat 11 64) [1;2;3].
